@@ -150,6 +150,16 @@ by move=> R conj cK n e P A HP H; split; [exact: permute_sound|exact: transform_
 Qed.
 Print Assumptions C03_site_permute_transform.
 
+(* expand_operator forwards the flags of the tensored operator through the
+   permutation of tensor factors *)
+Theorem C03_site_expand_operator :
+  forall (R : fieldType) (conj : {rmorphism R -> R}), involutive conj ->
+  forall n e (P A : 'M[R]_n), is_unitary conj P -> sound_a conj e A ->
+  sound_h conj (expand_permute_herm e) (P *m A *m dag conj P) /\
+  sound_u conj (expand_permute_unit e) (P *m A *m dag conj P) /\ expand_permute_data = DPermute.
+Proof. move=> R conj cK n e P A; exact: expand_permute_sound. Qed.
+Print Assumptions C03_site_expand_operator.
+
 Theorem C03_site_tensor :
   forall (R : fieldType) (conj : {rmorphism R -> R}) m n e (A : 'M[R]_m) (B : 'M[R]_n),
   sound_a conj e A -> sound_b conj e B ->
